@@ -6,7 +6,8 @@ def handlers : List (List String → Option String) := [
   Lou.Proto.handle?,
   Lou.Alloc.handle?,
   Lou.Resolve.handle?,
-  Lou.Log.handle?
+  Lou.Log.handle?,
+  Lou.Lexer.handle?
 ]
 
 def handleLine (line : String) : String :=
